@@ -682,9 +682,18 @@ def fit_predict_degenerate_bounded_instance(pinned=False):
                     post = CACGMMTrainer().fit_predict(y, initialization=init, iterations=it, weight_constant_axis=inp['wca'], covariance_norm=inp['norm'])
                 else:
                     cls = {'cwmm': CWMMTrainer, 'cbmm': CBMMTrainer, 'gmm': GMMTrainer, 'vmfmm': VMFMMTrainer}[model]
-                    post = cls().fit_predict(y, initialization=init, iterations=it, weight_constant_axis=inp['wca'])
+                    # every covariance structure of the Gaussian mixture (a zero-padded feature dimension for every other scene:
+                    # an exactly zero variance must end in an exception, not in NaN posteriors)
+                    kw_ = {}
+                    if model == 'gmm':
+                        kw_ = {'covariance_type': ['full', 'diagonal', 'spherical'][inp['seed'] % 3]}
+                        if (inp['seed'] // 3) % 2:
+                            y = np.concatenate([y, np.zeros_like(y[..., :1])], axis=-1)
+                    post = cls().fit_predict(y, initialization=init, iterations=it, weight_constant_axis=inp['wca'], **kw_)
         except Exception as e:      # noqa  an explicit exception is an admissible outcome
             return {'raised': type(e).__name__, 'post': None, 'shape': (y.shape[0], K, N), 'model': model}
+        if model == 'gmm':
+            model = 'gmm-' + kw_['covariance_type']
         tag = '%s,%s,norm=%s%s' % (model, data, inp['norm'] if model in ('cacgmm', 'gcacgmm', 'vmfcacgmm') else '-', ',single' if single else '')
         return {'raised': None, 'post': np.asarray(post), 'shape': (y.shape[0], K, N), 'model': tag}
 
